@@ -204,6 +204,24 @@ class History:
             if self.twin:
                 self.pairs.append((l, c.op(op, pid + "2"), op))
 
+    def exhaustion_episode(self, rnd):
+        """stateful only, no twin: drive the sender to 2^64-1 through the hook; the writes that then fail must not
+        have encrypted anything (each failing retry carries a different payload), nor may the rekey that follows"""
+        c = self.c
+        if self.transport != "tr" or self.twin:
+            return
+        w, r = ("A", "B") if (self.parsed.oneway or rnd.random() < 0.5) else ("B", "A")
+        c.op("set_tx_nonce", w, n=2**64 - 2)
+        c.op("set_rx_nonce", r, n=2**64 - 2)
+        c.op("t_write", w, pay="gen:9:last", buf=BIG, out="xlast")
+        c.op("t_read", r, msg="$xlast", buf=BIG)
+        for i in range(rnd.randrange(1, 4)):
+            self._fault(c.op("t_write", w, pay="gen:%d:ex%d" % (5 + i, i), buf=BIG), w, "t_write", "exhausted")
+        self._fault(c.op("t_read", r, msg="$xlast", buf=BIG), r, "t_read", "exhausted")
+        c.op("rekey_out", w)
+        c.op("rekey_in", r)
+        self._fault(c.op("t_write", w, pay="gen:7:after", buf=BIG), w, "t_write", "exhausted")
+
     def transport_phase(self, rnd, nmsgs=4, fault_rate=0.5, rekeys=False):
         c = self.c
         p = self.parsed
